@@ -26,6 +26,10 @@ def specs(tier, seed):
                 S.append(sim.spec(t, schedule=(('run_stop', K, (kind, idx, op, unit)),), tag=':%s%d:%s' % (kind, idx, op)))
         kind, idx, unit = lst[0]
         S.append(sim.spec(t, schedule=(('run', 2), ('run_stop', 2, (kind, idx, 'greater_than', unit))), tag=':cont'))
+        # one StopCondition object reused after it has (possibly) fired: continuation, and reset + rerun
+        sc = (kind, idx, 'greater_than' if kind != 'tachometer' else 'less_than', unit)
+        S.append(sim.spec(t, schedule=(('run_stop', 2, sc), ('run_stop', 2, sc)), tag=':reuse_cont'))
+        S.append(sim.spec(t, schedule=(('run_stop', 2, sc), ('reset',), ('reinit',), ('run_stop', 2, sc)), tag=':reuse_reset'))
     return S
 
 
@@ -38,7 +42,8 @@ REQUIRED_TRIGGERS = {'quick': ('stop.false_before_last', 'stop.true_at_early_end
 BOUNDS = {
     'quick': 'T1/T3/T4 with configuration and dt concrete; threshold, initial state and every load value symbolic; '
              'sensors: encoder and tachometer on the motor, a middle element and the last element, amperometer; all '
-             'five operators; threshold in a non-SI unit in half of the jobs; K=3 (fresh run) and 2+2 (stop during a continuation)',
+             'five operators; threshold in a non-SI unit in half of the jobs; K=3 (fresh run) and 2+2 (stop during a continuation); '
+             'the same StopCondition object reused in a continuation and after reset + rerun',
     'thorough': 'quick + K=4, every sensor x operator pair on T1,T3,T4,T6, every threshold unit once',
 }
 OUTSIDE = 'K>4; stop conditions combined with motor control beyond a fixed duty'
